@@ -176,6 +176,8 @@ static std::vector<Scenario> make_scenarios() {
     v.push_back(Scenario{"cif_container_set_value(existing scalar)", 1 | 8, true, false, [](S &s, const Params &p) -> int { (void) s; (void) p;  return cif_container_set_value(s.blk, U(u"_S2"), s.val2);  }, [](S &s) { (void) s;  }});
     v.push_back(Scenario{"cif_container_set_value(big list, new scalar)", 1 | 512, true, false, [](S &s, const Params &p) -> int { (void) s; (void) p;  return cif_container_set_value(s.blk, U(u"_big_scalar"), s.val2);  }, [](S &s) { (void) s;  }});
     v.push_back(Scenario{"cif_container_set_value(big list, existing looped)", 1 | 512, true, false, [](S &s, const Params &p) -> int { (void) s; (void) p;  return cif_container_set_value(s.blk, U(u"_l1"), s.val2);  }, [](S &s) { (void) s;  }});
+    v.push_back(Scenario{"cif_value_set_item_by_key(key that NFC lengthens by one unit)", 64, false, false, [](S &s, const Params &p) -> int { (void) s; (void) p;  return cif_value_set_item_by_key(s.val, U(u"k\u0958"), s.val2);  }, [](S &s) { (void) s;  }});
+    v.push_back(Scenario{"cif_value_get_item_by_key(key that NFC lengthens by one unit)", 64, false, false, [](S &s, const Params &p) -> int { (void) s; (void) p;  cif_value_tp *m = nullptr; int rc = cif_value_get_item_by_key(s.val, U(u"\u0f43x"), &m); return rc == CIF_NOSUCH_ITEM ? CIF_OK : rc;  }, [](S &s) { (void) s;  }});
     return v;
 }
 static const std::vector<Scenario> &scenarios() { static std::vector<Scenario> v = make_scenarios(); return v; }
